@@ -231,6 +231,61 @@ fn source(t: &Ty, c: &Case) -> Option<String> {
     Some(format!("{}pub mod m {{\n{}\n}}\n", PRELUDE, code))
 }
 
+
+// ---------------------------------------------------------------------------------------------
+// Second family: engine B's definitions. Every typed addition of every definition is, in turn,
+// the subject whose recorded information is perturbed; everything else of the history (ghost
+// data, removals, re-used names, strategies, may-be-uninit flags) stays as the history says.
+// ---------------------------------------------------------------------------------------------
+
+const FAMILY_PERTS: [Pert; 6] = [Pert::SizeMinus1, Pert::SizePlus1, Pert::SizeTimes2, Pert::AlignHalf, Pert::AlignTimes2, Pert::UninitFlag];
+
+struct FamCase {
+    def: usize,
+    slot: usize,
+    pert: Pert,
+}
+
+fn family_override(size: usize, align: usize, uninit: bool, p: Pert) -> Option<DatumDefinitionOverride> {
+    let mut o = DatumDefinitionOverride { type_name: None, size: None, align: None, allow_uninit: Some(uninit) };
+    match p {
+        Pert::None => {}
+        Pert::SizeMinus1 if size > 0 => o.size = Some(size - 1),
+        Pert::SizePlus1 => o.size = Some(size + 1),
+        Pert::SizeTimes2 if size > 0 => o.size = Some(size * 2),
+        Pert::AlignHalf if align > 1 => o.align = Some(align / 2),
+        Pert::AlignTimes2 => o.align = Some(align * 2),
+        Pert::UninitFlag if !uninit => o.allow_uninit = Some(true),
+        _ => return None,
+    }
+    Some(o)
+}
+
+/// (source, the subject's type is Copy, type name, size, align) or None when the perturbation does not apply
+fn family_source(spec: &defgen::DefSpec, c: &FamCase) -> Option<(String, bool, String, usize, usize)> {
+    let ts = defgen::types();
+    let info = std::cell::RefCell::new(None);
+    let applies = std::cell::Cell::new(true);
+    let add = |b: &mut defgen::Builder, name: &str, t: usize, uninit: bool| {
+        let ty = &ts[t];
+        *info.borrow_mut() = Some((ty.copy, ty.short.to_owned(), ty.size, ty.align));
+        match family_override(ty.size, ty.align, uninit, c.pert) {
+            Some(o) => (ty.add_override)(b, name, o),
+            None => {
+                applies.set(false);
+                (ty.add_override)(b, name, DatumDefinitionOverride { type_name: None, size: None, align: None, allow_uninit: Some(uninit) })
+            }
+        }
+    };
+    let built = defgen::build_with(spec, Some(&defgen::Subject { slot: c.slot, add: &add }));
+    if !applies.get() {
+        return None;
+    }
+    let (copy, short, size, align) = info.borrow().clone()?;
+    let code = generate(&built.def, &GeneratorConfig::default());
+    Some((format!("{}pub mod m {{\n{}\n}}\n", PRELUDE, code), copy, short, size, align))
+}
+
 pub fn main(args: &Args, ext: &Externs) -> i32 {
     let t0 = std::time::Instant::now();
     let ts = types();
@@ -253,6 +308,26 @@ pub fn main(args: &Args, ext: &Externs) -> i32 {
     });
     if let Some((t, p, q)) = &only {
         cases.retain(|c| ts[c.ty].name == t && format!("{:?}", c.pert) == *p && format!("{:?}", c.pos) == *q);
+    }
+    // the second family: every typed addition of engine B's definitions as the subject
+    let fam_defs = if args.tier == vcommon::Tier::Thorough { defgen::family("quick") } else { defgen::zoo() };
+    let mut fam_cases = vec![];
+    for (d, spec) in fam_defs.iter().enumerate() {
+        for slot in 0..spec.slots() {
+            for pert in FAMILY_PERTS {
+                fam_cases.push(FamCase { def: d, slot, pert });
+            }
+        }
+    }
+    if let Some(p) = &args.replay {
+        let d = vcommon::read_replay(p);
+        if d["case"]["space"] == "c11-family" {
+            cases.clear();
+            let (name, slot, pert) = (d["case"]["definition"].as_str().unwrap_or("").to_owned(), d["case"]["slot"].as_u64().unwrap_or(u64::MAX) as usize, d["case"]["perturbation"].as_str().unwrap_or("").to_owned());
+            fam_cases.retain(|c| fam_defs[c.def].name == name && c.slot == slot && format!("{:?}", c.pert) == pert);
+        } else {
+            fam_cases.clear();
+        }
     }
     #[derive(Debug)]
     enum Outcome {
@@ -337,6 +412,78 @@ pub fn main(args: &Args, ext: &Externs) -> i32 {
             samples.push(case_json(c));
         }
     }
+    // ---- the family sweep ----
+    let fam_results = crate::parallel(fam_cases.len(), |i| {
+        let c = &fam_cases[i];
+        let spec = &fam_defs[c.def];
+        let (src, copy, short, size, align) = match std::panic::catch_unwind(std::panic::AssertUnwindSafe(|| family_source(spec, c))) {
+            Ok(Some(x)) => x,
+            Ok(None) => return (Outcome::Skipped, false, String::new(), 0, 0),
+            Err(e) => return (Outcome::RejectedOtherwise(format!("builder/generator panicked: {}", vcommon::panic_message(&e))), false, String::new(), 0, 0),
+        };
+        let path = dir.join(format!("fam{}.rs", i));
+        std::fs::write(&path, src).unwrap();
+        let r = rustc(ext, &path, &["truc_runtime", "static_assertions", "vtypes"], None);
+        let _ = std::fs::remove_file(&path);
+        if r.ok {
+            return (Outcome::Accepted, copy, short, size, align);
+        }
+        let expected = match c.pert {
+            Pert::SizeMinus1 | Pert::SizePlus1 | Pert::SizeTimes2 => r.stderr.contains("const_assert_eq!(std::mem::size_of") || r.stderr.contains("const_assert_eq!(core::mem::size_of"),
+            Pert::AlignHalf | Pert::AlignTimes2 => r.stderr.contains("align_of"),
+            Pert::UninitFlag => r.stderr.contains("Copy"),
+            Pert::None => false,
+        };
+        let o = if expected { Outcome::RejectedAsExpected } else { Outcome::RejectedOtherwise(r.stderr.lines().filter(|l| l.starts_with("error")).take(3).collect::<Vec<_>>().join(" | ")) };
+        (o, copy, short, size, align)
+    });
+    let (mut fam_n, mut fam_rejected) = (0u64, 0u64);
+    for (c, (r, copy, short, size, align)) in fam_cases.iter().zip(fam_results.iter()) {
+        let spec = &fam_defs[c.def];
+        let case = json!({"space": "c11-family", "definition": spec.name, "history": spec.describe(), "slot": c.slot, "type": short, "real_size_align": [size, align], "perturbation": format!("{:?}", c.pert)});
+        let must_compile = c.pert == Pert::UninitFlag && *copy;
+        match r {
+            Outcome::Skipped => continue,
+            Outcome::Accepted => {
+                fam_n += 1;
+                if must_compile {
+                    accepted_ok += 1;
+                } else {
+                    perturbed += 1;
+                    let what = match c.pert {
+                        Pert::UninitFlag => "may-be-uninitialised-on-non-Copy",
+                        Pert::AlignHalf | Pert::AlignTimes2 => "wrong-alignment",
+                        _ => "wrong-size",
+                    };
+                    report.add(Violation::new(
+                        format!("C11/{}-compiles/family", what),
+                        format!("{} ({}): addition #{} (vtypes::{}, real size {}, align {}) recorded with {:?}: the generated module compiles", spec.name, spec.describe(), c.slot, short, size, align, c.pert),
+                        case,
+                    ));
+                }
+            }
+            Outcome::RejectedAsExpected => {
+                fam_n += 1;
+                perturbed += 1;
+                fam_rejected += 1;
+                if must_compile {
+                    report.add(Violation::new("C11/unperturbed-rejected", format!("{}: the may-be-uninit flag on the Copy type {} does not compile", spec.name, short), case));
+                }
+            }
+            Outcome::RejectedOtherwise(msg) => {
+                fam_n += 1;
+                if must_compile {
+                    report.add(Violation::new("C11/unperturbed-rejected", format!("{}: the may-be-uninit flag on the Copy type {} does not compile: {}", spec.name, short, msg), case));
+                } else {
+                    perturbed += 1;
+                    other += 1;
+                    eprintln!("note: {} slot {} {:?} rejected by another diagnostic: {}", spec.name, c.slot, c.pert, msg);
+                }
+            }
+        }
+    }
+    n += fam_n;
+    rejected += fam_rejected;
     // shortest first: keep one violation per key
     let mut seen = std::collections::BTreeSet::new();
     report.violations.retain(|v| seen.insert(v.key.clone()));
@@ -358,6 +505,7 @@ pub fn main(args: &Args, ext: &Externs) -> i32 {
         .cov("exhaustive", true)
         .cov("perturbed_rejected_by_the_emitted_assertion", rejected)
         .cov("correct_cases_accepted", accepted_ok)
+        .cov("second_family", json!({"rule": "every typed addition of every definition of engine B's family (quick: the 44-definition zoo; thorough: the 304 definitions of engine B's quick family) is in turn recorded with {size-1, size+1, 2*size, align/2, 2*align, may-be-uninit flag} while the rest of the history (removals, cancelled additions, re-used names, strategies, flags) stays; same oracle", "definitions": fam_defs.len(), "evaluations": fam_n, "rejected_by_the_emitted_assertion": fam_rejected}))
         .cov("types", ts.iter().map(|t| json!([t.name, t.size, t.align, t.copy])).collect::<Vec<_>>());
     report.assume("the compiler (rustc, --emit=metadata: type checking and constant evaluation) is the oracle");
     report.finish()
